@@ -22,6 +22,9 @@ def zipf_choice(rng, words, s=1.1):
     return rng.choices(words, weights=ws, k=1)[0]
 
 
+USECS = (0, 0, 0, 0, 1, 2, 3, 5)
+
+
 def make_schema(field_boosts=False, chars=False, vector=False, sortable=False):
     from whoosh import fields
     # b (BOOLEAN) is always in the schema; documents carry it only when generated with boolean=True
@@ -54,7 +57,8 @@ def gen_doc(rng, key, maxlen=6, sparse=0.15, boosts=False, burst=0.0, boolean=Fa
     if rng.random() > sparse:
         d["n"] = rng.randint(-5, 5)
     if rng.random() > 0.4:
-        d["d"] = EPOCH + datetime.timedelta(days=rng.randint(0, 9))
+        # a few values only microseconds apart: the sortable encoding must keep them distinct
+        d["d"] = EPOCH + datetime.timedelta(days=rng.randint(0, 9), microseconds=USECS[rng.randrange(len(USECS))])
     if boosts and rng.random() < 0.3:
         # 0.3 / 1.1: products that float32 cannot represent (the stored weight is rounded, sometimes upwards)
         d["_boost"] = rng.choice([0.5, 2.0, 3.0, 0.3, 1.1])
@@ -194,8 +198,9 @@ def gen_leaf(rng, fuzzy=True, scoring=False, boolean=False):
         q = query.NumericRange("n", rng.choice([a, None]), rng.choice([b, None]), rng.random() < .3, rng.random() < .3)
     elif r < 0.77:
         a, b = sorted([rng.randint(0, 9), rng.randint(0, 9)])
-        q = query.DateRange("d", rng.choice([EPOCH + datetime.timedelta(days=a), None]),
-                            rng.choice([EPOCH + datetime.timedelta(days=b), None]), rng.random() < .3, rng.random() < .3)
+        us = lambda: USECS[rng.randrange(len(USECS))]  # noqa
+        q = query.DateRange("d", rng.choice([EPOCH + datetime.timedelta(days=a, microseconds=us()), None]),
+                            rng.choice([EPOCH + datetime.timedelta(days=b, microseconds=us()), None]), rng.random() < .3, rng.random() < .3)
     elif r < 0.83:
         ws = [rng.choice(VOCAB[:6]) for _ in range(rng.randint(2, 3))]
         q = query.Phrase("t", ws, slop=rng.randint(1, 3))
